@@ -36,7 +36,9 @@ def run(ctx):
         what_oracle="a modified, replayed, re-attributed or insider-crafted message was accepted or made the receiver panic",
         assumptions=["signature, MAC and AEAD are free symbols (injective, unforgeable without the key) in the theorems; the real primitives are exercised only by the oracle",
                      "field lists are extracted from the Rust struct definitions and signable_content implementations by tools/translate.py (trusted extractor, ~120 lines)",
-                     "insider edits are limited to the InsiderEdit variants of the verif hook (update-path structure, leaf key, confirmation tag) on public-message commits"],
+                     "insider edits are limited to the InsiderEdit variants of the verif hook (update-path structure, leaf key, confirmation tag) on public-message commits, plus re-attribution "
+                     "(hook verif_reattribute): a commit / Update / Remove re-issued by a member under ANOTHER member's sender index with its own signature and a fresh membership tag, "
+                     "and a commit taken over under the re-signer's own name; re-attribution inside PrivateMessages (sender data) is covered by the byte-level mutations only"],
         nontrivial=lambda r, kv: int(kv.get("rejected", "0")), oracle_keyer=keyer)
 
 
